@@ -1,9 +1,10 @@
 (* C07 — derivatives of derivatives.
-   FULL STATEMENT (tied by correspondence, not yet a Coq theorem): for every
-   program, every order k >= 2 and all 2^k mode sequences, run_tagged = run_spec
-   (same statement as C08's nested_correct; the rules of the object-language
+   FULL STATEMENT, PROVED on the model (C07_all_mode_sequences_exact): for every
+   program, every order k >= 2 and all 2^k mode sequences, the tagged evaluator
+   returns the value of the tower semantics (the rules of the object-language
    primitives are themselves programs over the primitives, which is what makes
-   derivatives of derivatives expressible).
+   derivatives of derivatives expressible).  Built-in array primitives at second
+   order are covered by the implementation-side oracle, not by this theorem.
    PROVED HERE (partial): on the specification side the Hessian of every
    operator-free body is symmetric (mixed partials commute), and the nested
    operators of the language compute exactly that Hessian entry.
@@ -15,7 +16,7 @@
    contain a reverse-mode operator remain tied by correspondence only. *)
 From Coq Require Import List ZArith.
 Import ListNotations.
-From AG Require Import Tagged Tower Run08 TowerProof TaggedProof TowerAlg FwdCorrect FwdStep FwdEval.
+From AG Require Import Tagged Tower Run08 TowerProof TaggedProof TowerAlg FwdCorrect FwdStep FwdEval TowerRing MixInterp MixStep MixBackward MixEval.
 Local Open Scope Z_scope.
 
 Theorem C07_hessian_symmetric_partial :
@@ -30,6 +31,20 @@ Theorem C07_nested_operators_compute_hessian_entry_partial :
     = d2 e ((x, 0), (1, 0)) ((y, 1), (0, 0)).
 Proof. exact nested_deriv_is_d2. Qed.
 Print Assumptions C07_nested_operators_compute_hessian_entry_partial.
+
+(* FULL STATEMENT, PROVED on the model: every order, every one of the 2^k mode
+   sequences, every composition - the operators of the implementation model
+   compute the derivative of the tower semantics (same theorem as C08's). *)
+Theorem C07_all_mode_sequences_exact :
+  forall fuel e (s : state Z),
+    prims_ok e = true -> -1 <= top Z s -> calm Z s -> store Z s = [] ->
+    match fst (zeval_sup Mono fuel [] e s) with
+    | Val v => eval_spec e 0%nat [] = Some (strip Z v)
+    | Err _ => eval_spec e 0%nat [] = None
+    | OutOfFuel => True
+    end.
+Proof. exact nested_correct. Qed.
+Print Assumptions C07_all_mode_sequences_exact.
 
 Theorem C07_forward_towers_exact :
   forall fuel e (s : state Z),
